@@ -376,6 +376,110 @@ def run(F, R, tier):
                 "Wolfenstein parameter %s is used (asin/sqrt) without a preceding range check" % p["name"],
                 key="R2|" + p["name"])
 
+    # ---- R2b domain of the inverse trigonometric functions ---------------------------------------------------------
+    R.rule("R2b", "every asin / acos of the Wolfenstein conversion receives an argument in [-1, 1]: proved by interval arithmetic from the "
+                  "range checks, or enforced by a dominating test that rejects |argument| > 1 (otherwise the angle, and with it the "
+                  "whole CKM matrix, is NaN for admissible input)", 3)
+    bounded = set()
+    for p in gw["params"]:
+        for s_ in top:
+            if s_.get("k") == "IfStmt" and Rr.r(s_["cond"]) == "(1 < abs(%s))" % p["name"] and always_exits(s_["then"]):
+                bounded.add(p["id"])
+    inits = {}
+    for n in walk(gw["body"]):
+        if n.get("k") == "DeclStmt":
+            for d in n.get("decls", ()):
+                if "id" in d and d.get("init") is not None:
+                    inits[d["id"]] = d["init"]
+    INF = float("inf")
+
+    def iv(n, depth=0):
+        """interval [lo, hi] of a real expression, (-inf, inf) when unknown"""
+        n = strip_all(n)
+        if n is None or depth > 12:
+            return (-INF, INF)
+        k = n.get("k")
+        if k in ("FloatingLiteral", "IntegerLiteral"):
+            try:
+                v = float(n.get("v") if n.get("v") is not None else n.get("s"))
+                return (v, v)
+            except (TypeError, ValueError):
+                return (-INF, INF)
+        if k == "DeclRefExpr":
+            if n.get("id") in bounded:
+                return (-1.0, 1.0)
+            if n.get("id") in inits:
+                return iv(inits[n["id"]], depth + 1)
+            return (-INF, INF)
+        if k == "UnaryOperator" and n.get("op") == "-":
+            a = iv(n["c"][0], depth + 1)
+            return (-a[1], -a[0])
+        if k == "BinaryOperator" and n.get("op") in ("*", "+", "-"):
+            a, b = iv(n["c"][0], depth + 1), iv(n["c"][1], depth + 1)
+            if n["op"] == "+":
+                return (a[0] + b[0], a[1] + b[1])
+            if n["op"] == "-":
+                return (a[0] - b[1], a[1] - b[0])
+            if INF in (abs(a[0]), abs(a[1]), abs(b[0]), abs(b[1])):
+                return (-INF, INF)
+            ps = [x * y for x in a for y in b]
+            return (min(ps), max(ps))
+        if is_call(n):
+            fn = str(n.get("fn") or "").split("(")[0]
+            short = fn.split("::")[-1]
+            args = call_args(n)
+            if short in ("sqr", "pow2") and len(args) == 1:
+                a = iv(args[0], depth + 1)
+                m = max(abs(a[0]), abs(a[1]))
+                return (0.0, m * m)
+            if short in ("cube", "pow3") and len(args) == 1:
+                a = iv(args[0], depth + 1)
+                return (a[0] ** 3, a[1] ** 3) if INF not in (abs(a[0]), abs(a[1])) else (-INF, INF)
+            if short == "pow4" and len(args) == 1:
+                a = iv(args[0], depth + 1)
+                m = max(abs(a[0]), abs(a[1]))
+                return (0.0, m ** 4)
+            if short in ("abs", "fabs") and len(args) == 1:
+                t_ = str(strip_all(args[0]).get("t") or "")
+                if "complex" in t_:
+                    return (0.0, INF)
+                a = iv(args[0], depth + 1)
+                return (0.0, max(abs(a[0]), abs(a[1])))
+        return (-INF, INF)
+
+    n_sites = 0
+    for n in walk(gw["body"]):
+        if not (is_call(n) and str(n.get("fn") or "").split("(")[0] in ("std::asin", "asin", "std::acos", "acos")):
+            continue
+        n_sites += 1
+        arg = call_args(n)[0]
+        lo, hi = iv(arg)
+        ok = lo >= -1.0 and hi <= 1.0
+        how = "interval [%g, %g]" % (lo, hi)
+        if not ok:
+            # a dominating rejection `if (arg > 1) throw` / guard `arg <= 1`, together with arg >= 0 or a lower test
+            tests = []
+            for b in S.executed_before(n):
+                if b.get("k") == "IfStmt" and always_exits(b.get("then")):
+                    tests.append(Rr.r(b["cond"]))
+            for c, pol in S.guards(n):
+                if c != "switch":
+                    tests.append(("" if pol else "!") + Rr.r(c))
+            a_txt = Rr.r(strip_all(arg))
+            base = a_txt
+            if strip_all(arg).get("k") == "DeclRefExpr" and strip_all(arg).get("id") in inits:
+                base = Rr.r(strip_all(inits[strip_all(arg)["id"]]))
+            upper = any(t_ in ("(1 < %s)" % x, "(1.0 < %s)" % x, "!(%s <= 1)" % x) for t_ in tests for x in (a_txt, base)) or \
+                any(t_ == "(%s <= 1)" % x for t_ in tests for x in (a_txt, base))
+            lower = lo >= -1.0 or any(t_ in ("(%s < -1)" % x,) for t_ in tests for x in (a_txt, base))
+            ok = upper and lower
+            how = "dominating test" if ok else "interval [%g, %g], no dominating rejection of values above 1 (tests seen: %s)" % (lo, hi, tests[-3:])
+        R.check("R2b", ok, "%s: %s" % (Rr.r(n)[:60], how if ok else "argument in [-1, 1]"), F.loc(gw, n),
+                "the argument of %s is not confined to [-1, 1]: %s; for such input the angle is NaN and every CKM entry with it"
+                % (Rr.r(n)[:60], how), key="R2b|%s" % Rr.r(strip_all(arg))[:50])
+    if n_sites < 3:
+        R.soft_broken("R2b: expected three asin sites in get_ckm_from_wolfenstein, found %d" % n_sites)
+
     # ---- R3 EW relations -----------------------------------------------------------------
     R.rule("R3", "cw = |MW/MZ|, sw^2 + cw^2 = 1, gY cw = e, g2 sw = e, v g2 = 2 MW, e^2 = 4 pi alpha as identities of "
                  "the folded SM getters", 6)
